@@ -346,10 +346,11 @@ static int show_protocol(var o, const char* name) {
     vf_violation(lab, NULL, "show_to(%s, string, 0) returned %d but wrote %zu characters '%s'", name, sr, wl, printable(SHOWN, wl));
     return 1;
   }
-  for (volatile int si = 0; si < nStart; si++) for (volatile int k = 0; k < 2; k++) {
+  static const int SHSTARTS[4] = { 0, 5, PLEN, 3 };
+  for (volatile int si = 0; si < 4; si++) for (volatile int k = 0; k < 2; k++) {
     volatile int ret = -1;
     size_t gl; const char* gt; int pok;
-    const int st = STARTS[si];
+    const int st = SHSTARTS[si];
     if (k == 0) {
       assign(SS, PFX);
       e = VF_CATCH(ret = show_to(o, SS, st));
@@ -574,8 +575,100 @@ static void missing_conv(char conv) {
 
 /* ---- %$ on containers --------------------------------------------------------------------- */
 
-#define NSHAPES 26
-static const char* shape_name[NSHAPES];
+#define NSHAPES 26          /* hand-written shapes */
+#define NNEST   6           /* containers of containers holding grid values */
+#define NKINDS  7
+#define NGEN    (NKINDS * 18)
+#define NSHAPES_ALL (NSHAPES + NNEST + NGEN)
+static const char* shape_name[NSHAPES_ALL];
+static char shape_name_buf[NSHAPES_ALL][120];
+static const char* shape_elem[NSHAPES_ALL];     /* element feature for the label (generated shapes) */
+static char shape_elem_buf[NSHAPES_ALL][48];
+
+/* element value grids that stress each element type's own show text */
+enum { ET_INT, ET_FLT, ET_STR };
+static const int64_t EI[8] = { 0, -1, 2147483647LL, 2147483648LL, 4294967301LL, -2147483649LL, INT64_MAX, INT64_MIN };
+static const char* EIN[8] = { "0", "-1", "2^31-1", "2^31", "2^32+5", "-2^31-1", "INT64_MAX", "INT64_MIN" };
+static const double EF[4] = { 0.5, -0.0, 1e300, 123456.789 };
+static const char* EFN[4] = { "0.5", "-0.0", "1e300", "123456.789" };
+static const char* ES[3] = { "", "q\"uo\\te\n%d%", "0123456789abcdefghijABCDEFGHIJ0123456789" };
+static const char* ESN[3] = { "empty", "quote-backslash-newline-percent", "40chars" };
+static const int ECOUNT[3] = { 8, 4, 3 };
+static const char* ETN[3] = { "Int", "Float", "String" };
+static const char* KINDN[NKINDS] = { "Array", "List", "Tuple", "Table-keys", "Table-values", "Tree-keys", "Tree-values" };
+
+static var emk(int t, int i) {
+  return t == ET_INT ? (var)new_raw(Int, $I(EI[i])) : t == ET_FLT ? (var)new_raw(Float, $F(EF[i])) : (var)new_raw(String, $S((char*)ES[i]));
+}
+static const char* ename(int t, int i) { return t == ET_INT ? EIN[i] : t == ET_FLT ? EFN[i] : ESN[i]; }
+static var etype(int t) { return t == ET_INT ? Int : t == ET_FLT ? Float : String; }
+
+/* a container of the given kind holding grid values lo..hi-1 of element type t */
+static var build_kind(int kind, int t, int lo, int hi) {
+  var o = NULL, T_ = etype(t);
+  switch (kind) {
+  case 0: o = new_raw(Array, T_); break;
+  case 1: o = new_raw(List, T_); break;
+  case 2: o = new_raw(Tuple); break;
+  case 3: o = new_raw(Table, T_, Int); break;
+  case 4: o = new_raw(Table, String, T_); break;
+  case 5: o = new_raw(Tree, T_, Int); break;
+  case 6: o = new_raw(Tree, Int, T_); break;
+  }
+  for (int i = lo; i < hi; i++) {
+    var e = emk(t, i);
+    char kb[16]; snprintf(kb, sizeof kb, "k%d", i);
+    switch (kind) {
+    case 0: case 1: case 2: push(o, e); break;
+    case 3: case 5: set(o, e, $I(i)); break;
+    case 4: set(o, $S(kb), e); break;
+    case 6: set(o, $I(i), e); break;
+    }
+  }
+  return o;
+}
+
+static var make_generated(int h) {
+  if (h < NSHAPES + NNEST) {
+    int n = h - NSHAPES;
+    var o = NULL;
+    const char* nm = "";
+    switch (n) {
+    case 0: nm = "Array(Array)[Array(Int grid), Array(Int)[5]]";
+            o = new_raw(Array, Array, build_kind(0, ET_INT, 0, 8), build_kind(0, ET_INT, 0, 1)); break;
+    case 1: nm = "List(Array)[Array(Float grid), Array(Int 2^31, 2^32+5, -2^31-1)]";
+            o = new_raw(List, Array, build_kind(0, ET_FLT, 0, 4), build_kind(0, ET_INT, 3, 6)); break;
+    case 2: nm = "Tuple(Array(Int grid), List(Float grid), Table(String->Int grid), Tree(Int grid->Int))";
+            o = new_raw(Tuple, build_kind(0, ET_INT, 0, 8), build_kind(1, ET_FLT, 0, 4), build_kind(4, ET_INT, 0, 8), build_kind(5, ET_INT, 0, 8)); break;
+    case 3: nm = "Table(String->Array(Int grid))";
+            o = new_raw(Table, String, Array); set(o, $S("a"), build_kind(0, ET_INT, 0, 8)); set(o, $S("b"), build_kind(0, ET_INT, 4, 5)); break;
+    case 4: nm = "Tree(Int->List(String grid))";
+            o = new_raw(Tree, Int, List); set(o, $I(1), build_kind(1, ET_STR, 0, 3)); set(o, $I(2), build_kind(1, ET_INT, 3, 8)); break;
+    case 5: nm = "List(Table)[Table(Int grid->Int)]";
+            o = new_raw(List, Table, build_kind(3, ET_INT, 0, 8)); break;
+    }
+    snprintf(shape_name_buf[h], sizeof shape_name_buf[h], "%s", nm);
+    shape_name[h] = shape_name_buf[h];
+    shape_elem[h] = "nested";
+    return o;
+  }
+  int g = h - NSHAPES - NNEST;
+  int kind = g / 18, r = g % 18, t, lo, hi;
+  if (r < 8) { t = ET_INT; lo = r; hi = r + 1; }
+  else if (r < 12) { t = ET_FLT; lo = r - 8; hi = lo + 1; }
+  else if (r < 15) { t = ET_STR; lo = r - 12; hi = lo + 1; }
+  else { t = r - 15; lo = 0; hi = ECOUNT[t]; }
+  if (hi - lo == 1) {
+    snprintf(shape_name_buf[h], sizeof shape_name_buf[h], "%s of %s {%s}", KINDN[kind], ETN[t], ename(t, lo));
+    snprintf(shape_elem_buf[h], sizeof shape_elem_buf[h], "%s=%s", ETN[t], ename(t, lo));
+  } else {
+    snprintf(shape_name_buf[h], sizeof shape_name_buf[h], "%s of the whole %s grid (%d values)", KINDN[kind], ETN[t], hi - lo);
+    snprintf(shape_elem_buf[h], sizeof shape_elem_buf[h], "%s-grid", ETN[t]);
+  }
+  shape_name[h] = shape_name_buf[h];
+  shape_elem[h] = shape_elem_buf[h];
+  return build_kind(kind, t, lo, hi);
+}
 
 static var I_(int64_t v) { return new_raw(Int, $I(v)); }
 static var S_(const char* s) { return new_raw(String, $S((char*)s)); }
@@ -617,11 +710,67 @@ static var make_shape(int h) {
   return o;
 }
 
-static void show_mode(void) {
+/* ---- expected show text of a container, element by element ---------------------------------
+** Int / Float / String elements: show_to of a STAND-ALONE object holding the same value (so a
+** container that formats its elements itself instead of through their own Show is found out);
+** Array/List/Tuple/Table/Tree elements: their own prefix and suffix around the recursively
+** expected body; anything else: its own show_to.  Returns the new offset, or cap on overflow. */
+
+static int is_container(var ty) { return ty == Array || ty == List || ty == Tuple || ty == Table || ty == Tree; }
+
+static size_t app(char* buf, size_t o, size_t cap, const char* t, size_t n) {
+  if (o >= cap || o + n + 1 > cap) return cap;
+  memcpy(buf + o, t, n); buf[o + n] = 0;
+  return o + n;
+}
+
+static size_t expect_text(var obj, char* buf, size_t o, size_t cap, int depth, size_t* top_count) {
   var tmp = new_raw(String);
-  for (int h = 0; h < NSHAPES; h++) {
+  var ty = obj ? type_of(obj) : NULL;
+  var sI = $I(0), sF = $F(0.0), sS = $S("");
+  if (ty == Int || ty == Float || ty == String) {
+    var sa;
+    if (ty == Int) { ((struct Int*)sI)->val = c_int(obj); sa = sI; }
+    else if (ty == Float) { ((struct Float*)sF)->val = c_float(obj); sa = sF; }
+    else { ((struct String*)sS)->val = c_str(obj); sa = sS; }
+    show_to(sa, tmp, 0); vf.executions++;
+    o = app(buf, o, cap, c_str(tmp), strlen(c_str(tmp)));
+  } else if (ty && is_container(ty) && depth < 4) {
+    show_to(obj, tmp, 0); vf.executions++;
+    char* text = strdup(c_str(tmp));
+    size_t tl = strlen(text), ob = strcspn(text, "[{(");
+    char close = ob < tl ? (text[ob] == '[' ? ']' : text[ob] == '{' ? '}' : ')') : 0;
+    char* cb = close ? strrchr(text, close) : NULL;
+    if (!cb || (size_t)(cb - text) <= ob) o = app(buf, o, cap, text, tl);
+    else {
+      int is_map = ty == Table || ty == Tree;
+      o = app(buf, o, cap, text, ob + 1);
+      size_t count = 0, horizon = len(obj) + 4;
+      foreach (item in obj) {
+        if (count >= horizon || o >= cap) break;
+        if (count > 0) o = app(buf, o, cap, ", ", 2);
+        o = expect_text(item, buf, o, cap, depth + 1, NULL);
+        if (is_map) { o = app(buf, o, cap, ":", 1); o = expect_text(get(obj, item), buf, o, cap, depth + 1, NULL); }
+        count++;
+      }
+      if (top_count) *top_count = count;
+      o = app(buf, o, cap, cb, strlen(cb));
+    }
+    free(text);
+  } else {
+    show_to(obj, tmp, 0); vf.executions++;
+    o = app(buf, o, cap, c_str(tmp), strlen(c_str(tmp)));
+  }
+  del_raw(tmp);
+  return o;
+}
+
+static void show_mode(void) {
+  for (int hi_ = 0; hi_ < NSHAPES_ALL; hi_++) {
+    /* simplest first: hand-written shapes, generated single-type shapes, then the nested ones */
+    int h = hi_ < NSHAPES ? hi_ : hi_ < NSHAPES + NGEN ? hi_ + NNEST : hi_ - NGEN;
     if (R_on && R_h >= 0 && R_h != h) continue;
-    var o = make_shape(h);
+    var o = h < NSHAPES ? make_shape(h) : make_generated(h);
     int is_map = type_of(o) == Table || type_of(o) == Tree;
     vf_watchdog(60);
     vf_set_cur("show h=%d | %s", h, shape_name[h]);
@@ -639,38 +788,28 @@ static void show_mode(void) {
     char* cb = strrchr(SHOWN, close);
     if (!cb || (size_t)(cb - SHOWN) <= ob) { snprintf(lab, sizeof lab, "show/%s/no-closing-bracket", c_str(type_of(o))); vf_violation(lab, NULL, "show text '%s' has no closing bracket", printable(SHOWN, wl)); continue; }
     size_t bodylen = (size_t)(cb - SHOWN) - ob - 1;
-    /* expected body: ", "-join of the elements' own show texts in iteration order */
-    size_t jo = 0, count = 0, horizon = len(o) + 4;
-    JOIN[0] = 0;
-    int overflow = 0;
-    foreach (item in o) {
-      if (count >= horizon) break;
-      if (count > 0) jo += snprintf(JOIN + jo, sizeof JOIN - jo, ", ");
-      assign(tmp, $S(""));
-      show_to(item, tmp, 0); vf.executions++;
-      jo += snprintf(JOIN + jo, sizeof JOIN - jo, "%s", c_str(tmp));
-      if (is_map) {
-        assign(tmp, $S(""));
-        show_to(get(o, item), tmp, 0); vf.executions++;
-        jo += snprintf(JOIN + jo, sizeof JOIN - jo, ":%s", c_str(tmp));
-      }
-      if (jo >= sizeof JOIN) { overflow = 1; break; }
-      count++;
-    }
-    if (overflow) continue;
+    /* expected text: own prefix + ", "-join of the elements' own show texts (stand-alone objects of the
+    ** same value, nested containers element by element) in iteration order + own suffix */
+    size_t count = 0;
+    size_t jo = expect_text(o, JOIN, 0, sizeof JOIN, 0, &count);
+    if (jo >= sizeof JOIN) continue;
     const char* feat = len(o) == 0 ? "empty" : len(o) == 1 ? "one" : "many";
+    char tyfeat[100];
+    if (shape_elem[h]) snprintf(tyfeat, sizeof tyfeat, "%s/%s/%s", c_str(type_of(o)), feat, shape_elem[h]);
+    else snprintf(tyfeat, sizeof tyfeat, "%s/%s", c_str(type_of(o)), feat);
     if (count != len(o)) {
-      snprintf(lab, sizeof lab, "show/%s/%s/iteration-count", c_str(type_of(o)), feat);
+      snprintf(lab, sizeof lab, "show/%s/iteration-count", tyfeat);
       vf_violation(lab, NULL, "iteration of %s yields %zu elements, len is %zu", shape_name[h], count, len(o));
       continue;
     }
-    if (bodylen != jo || memcmp(SHOWN + ob + 1, JOIN, jo) != 0) {
-      snprintf(lab, sizeof lab, "show/%s/%s/body-is-not-join-of-elements", c_str(type_of(o)), feat);
-      vf_violation(lab, NULL, "show of %s has body '%s'; the elements' own show texts joined by \", \" in iteration order are '%s'",
-        shape_name[h], printable(SHOWN + ob + 1, bodylen), printable(JOIN, jo));
+    if (wl != jo || memcmp(SHOWN, JOIN, jo) != 0) {
+      size_t eb = jo > ob + 1 ? jo - ob - 1 - strlen(cb) : 0;     /* expected body: same prefix and suffix lengths */
+      snprintf(lab, sizeof lab, "show/%s/body-is-not-join-of-elements", tyfeat);
+      vf_violation(lab, NULL, "show of %s has body '%s'; the elements' own show texts (stand-alone objects of the same values) joined by \", \" in iteration order are '%s'",
+        shape_name[h], printable(SHOWN + ob + 1, bodylen), jo > ob + 1 ? printable(JOIN + ob + 1, eb) : "?");
     }
     if (count_nt && count >= 2) vf.nontrivial++;
-    if (!strstr(JOIN, "At 0x") && vf_want_sample()) vf_sample("show(%s) body '%s'", shape_name[h], printable(JOIN, jo));
+    if (!strstr(SHOWN + ob, "At 0x") && vf_want_sample()) vf_sample("show(%s) body '%s'", shape_name[h], printable(SHOWN + ob + 1, bodylen));
     struct spec s = { '$', M_NONE, 0, 0, 0, "%$", "%$" };
     if (proto_bad) continue;
     /* %$ in every context */
@@ -942,7 +1081,7 @@ int main(int argc, char** argv) {
     ladder_mode();
   } else if (strcmp(mode, "show") == 0) {
     show_mode();
-    vf_extra("container_shapes", "%d", NSHAPES);
+    vf_extra("container_shapes", "%d", NSHAPES_ALL);
   } else {
     for (const char* c = convs; *c; c++) {
       if (R_on && R_c && *c != R_c) continue;
